@@ -226,7 +226,7 @@ func loopAnchor(reg ssa.Instruction) ssa.Instruction {
 			continue
 		}
 		/* From the body's entry, the header is not reachable without reg. */
-		skip := reachQ{From: Loc{body, -1}, Target: func(i ssa.Instruction) bool { return i == ssa.Instruction(ifi) || isReturn(i) }, Block: func(i ssa.Instruction) bool { return i == reg }}.run()
+		skip := reachQ{From: Loc{body, -1, nil}, Target: func(i ssa.Instruction) bool { return i == ssa.Instruction(ifi) || isReturn(i) }, Block: func(i ssa.Instruction) bool { return i == reg }}.run()
 		if nil == skip {
 			return ifi
 		}
